@@ -34,19 +34,35 @@ def main():
         sh("git", "-C", WT, "checkout", "-q", "--", ".")
         sh("git", "-C", WT, "clean", "-fdq")
         r = sh("git", "-C", WT, "revert", "--no-commit", sha)
+        clean_revert = r.returncode == 0
+        if not clean_revert:
+            # later commits touched the same lines: take the pre-fix side of the overlapping hunks
+            sh("git", "-C", WT, "revert", "--abort")
+            sh("git", "-C", WT, "reset", "-q", "--hard", head)
+            r = sh("git", "-C", WT, "revert", "--no-commit", "-X", "theirs", sha)
         if r.returncode != 0:
             sh("git", "-C", WT, "revert", "--abort")
             sh("git", "-C", WT, "reset", "-q", "--hard", head)
             index[sha] = {"property": prop, "reverts_cleanly": False, "what": what[:160]}
             print(prop, sha, "revert-conflict", flush=True)
             continue
+        how = "quick tier, VERIF_SEED=1"
         rc, lines, replays = run_quick(prop, WT + "/src")
         nv = sum(ln.startswith("VIOLATION") for ln in lines)
+        if not nv:
+            # not rediscovered by the default quick run: other seeds, then the thorough tier (the saved input then
+            # makes the quick tier deterministic about this defect)
+            for seed, tier in ((2, "quick"), (3, "quick"), (4, "quick"), (1, "thorough")):
+                rc, lines, replays = run_quick(prop, WT + "/src", seed=seed, tier=tier)
+                nv = sum(ln.startswith("VIOLATION") for ln in lines)
+                if nv:
+                    how = "%s tier, VERIF_SEED=%d (missed by the quick tier at the seeds tried before)" % (tier, seed)
+                    break
         nh = sum(ln.startswith("HARNESS-ERROR") for ln in lines)
         kept = harvest(prop, "fix_" + sha, replays, WT + "/src",
                        "shrunk failing input of the quick check with fix: commit %s reverted (%s)" % (sha, what[:200]))
-        index[sha] = {"property": prop, "reverts_cleanly": True, "quick_exit_with_fix_reverted": rc, "violation_lines": nv,
-                      "harness_error_lines": nh, "regression_inputs": kept, "what": what[:160]}
+        index[sha] = {"property": prop, "reverts_cleanly": clean_revert, "quick_exit_with_fix_reverted": rc, "violation_lines": nv,
+                      "harness_error_lines": nh, "regression_inputs": kept, "what": what[:160], "found_by": how}
         print(prop, sha, "caught" if nv else ("HARNESS" if nh else "MISSED"), len(kept), flush=True)
         sh("git", "-C", WT, "reset", "-q", "--hard", head)
         json.dump(index, open(idx_path, "w"), indent=1, sort_keys=True)
